@@ -110,7 +110,7 @@ theorem readR_limited {f : Bytes} {k : Nat} {ra : ReaderAt} (hl : Limited f k ra
     recs = dirFrom f 0 (rd16 f 4) ∧
     ∃ last, (coverage recs).getLast? = some last ∧ overlapping (coverage recs) = false ∧
       last.2 ≤ k ∧ last.2 ≤ f.length := by
-  unfold readR at h
+  unfold readR readRG at h
   cases h0 : ra 0 6 with
   | eof => rw [h0] at h; cases h
   | fault => rw [h0] at h; cases h
